@@ -381,6 +381,48 @@ fn faulted_to_json(f: &Faulted, case: &Case) -> Value {
 fn one_run(seed: u64, run: u64, max_positions: usize) -> RunResult {
     let mut rng = Rng::new(mix(seed, "C07", run));
     let knobs = random_knobs(&mut rng);
+    if run % 10 == 9 {
+        // nested syntax definitions in failing forms
+        let f = macro_leak_case(&mut rng, run);
+        let mut case = Case::new(vec![]);
+        case.knobs = knobs;
+        let mut res = RunResult {
+            evals: 1,
+            positions: 1,
+            kinds: BTreeMap::new(),
+            injected_failures: 0,
+            later_checked: 0,
+            traces: 0,
+            discarded: 0,
+            nontrivial_keys: vec![],
+            instrs: 0,
+            violation: None,
+            sample: None,
+            workload: "macro-in-failing-form",
+        };
+        *res.kinds.entry(f.kind.name()).or_insert(0) += 1;
+        match evaluate(&f, &case) {
+            EvalOut::Ok { injected_failures, later_forms_checked, traces_compared, instrs, .. } => {
+                res.injected_failures = injected_failures as u64;
+                res.later_checked = later_forms_checked as u64;
+                res.traces = traces_compared as u64;
+                res.instrs = instrs;
+                res.nontrivial_keys.push(fnv64(f.vm_texts.join("\n").as_bytes()));
+            }
+            EvalOut::Discarded(_) => res.discarded = 1,
+            EvalOut::Violation { class, detail } => {
+                res.violation = Some(Violation {
+                    property: "C07".into(),
+                    oracle: if class.starts_with("reference") { "reference machine".into() } else { "never-failed twin / monitors".into() },
+                    signature: format!("C07 {}", class),
+                    run,
+                    case: faulted_to_json(&f, &case),
+                    detail,
+                });
+            }
+        }
+        return res;
+    }
     let mut wl = rng.fork();
     let use_g05 = rng.chance(1, 4);
     let mut base = setup_forms();
@@ -471,7 +513,7 @@ fn one_run(seed: u64, run: u64, max_positions: usize) -> RunResult {
                 let mut best = f.clone();
                 let mut best_case = case.clone();
                 let same = |ff: &Faulted, cc: &Case| matches!(evaluate(ff, cc), EvalOut::Violation { class: c2, .. } if c2 == class);
-                let mut i = setup_len;
+                let mut i = if crate::report::minimise_on() { setup_len } else { usize::MAX };
                 while i < best.ref_forms.len() {
                     if best.ref_forms.len() <= setup_len + 1 {
                         break;
@@ -514,6 +556,47 @@ fn one_run(seed: u64, run: u64, max_positions: usize) -> RunResult {
         }
     }
     res
+}
+
+/// A failing form that contains a nested `define-syntax` which is never reached (the failure
+/// comes first) or never completed (a compile-time error later in the same form): the keyword
+/// must not exist afterwards, and a procedure of that name must still be the procedure.
+/// The reference machine has no macros: it rejects the whole form (no effect), which is exactly
+/// the prescribed outcome because the form performs no effect before failing.
+fn macro_leak_case(rng: &mut Rng, run: u64) -> Faulted {
+    let kind = RUNTIME_KINDS[rng.usize(RUNTIME_KINDS.len())];
+    let fault = vm_text(&kind.vm_expr(run * 1000 + 1));
+    let kw = format!("kw{}", run % 97);
+    let clash = rng.chance(1, 2);
+    let name = if clash { "twice-fn".to_string() } else { kw };
+    let rules = format!("(define-syntax {} (syntax-rules () ((_ a) (list 'macro a)) ((_ a b) (list 'macro b a))))", name);
+    let failing = match rng.below(5) {
+        0 => format!("(begin {} {})", fault, rules),
+        1 => format!("(let ((tmp-x 1)) {} {} tmp-x)", fault, rules),
+        2 => format!("((lambda () {} {} 'done))", fault, rules),
+        3 => format!("(if (= 1 1) (begin {} {}) 'no)", fault, rules),
+        // compile-time failure after the definition was compiled
+        _ => format!("(begin {} (if))", rules),
+    };
+    let mut texts: Vec<String> = setup_forms().iter().map(|f| f.text()).collect();
+    texts.push("(define (twice-fn x) (* 2 x))".into());
+    texts.push("(define p-var (list 1 2))".into());
+    texts.push(failing);
+    texts.push(format!("({} 21)", name));
+    texts.push(format!("({} 1 2)", name));
+    texts.push("(twice-fn 4)".into());
+    texts.push("(%probe-deep 1 5)".into());
+    // the reference reads the same texts; the failing form is rejected by its compiler
+    let ref_forms: Vec<Sx> = texts
+        .iter()
+        .map(|t| read_one(t).unwrap_or_else(|_| read_one("(if)").unwrap()))
+        .collect();
+    Faulted {
+        ref_forms: ref_forms.clone(),
+        vm_texts: texts,
+        twin_forms: ref_forms,
+        kind,
+    }
 }
 
 fn rng_hash(a: u64, b: usize) -> u64 {
@@ -660,4 +743,15 @@ pub fn replay(case: &Value) -> Result<Option<Violation>, String> {
         }),
         _ => None,
     })
+}
+
+pub fn rerun(tier: Tier, seed: u64, run: u64) -> Option<Violation> {
+    if run >= 9_000_000 {
+        return None;
+    }
+    let max_positions = match tier {
+        Tier::Quick => 24,
+        Tier::Thorough => 64,
+    };
+    one_run(seed, run, max_positions).violation
 }
